@@ -305,9 +305,9 @@ package client
 //@ ensures [C11:again] old(copied) ==> calls(CP) == 0 && calls(CL) == 0 && calls(GB) == 1 && arg(GB,0,0) == r && result == ret(GB,0,0) && body == old(body) && copyErr == old(copyErr)
 //@ ensures [C11:once] copied
 //@ ensures [C11:copy] !old(copied) ==> calls(CP) == 1 && arg(CP,0,0) == boxas(old(r.buf), "*bytes.Buffer") && arg(CP,0,1) == old(body)
-//@ ensures [C11:copyfail] !old(copied) && ret(CP,0,1) != nil ==> copyErr == ret(CP,0,1) && result == nil && calls(GB) == 0
-// a failing source is remembered as the failure of the request, whatever closing it afterwards says (C12: faults surface)
+// a failing source is remembered as the failure of the request, whatever closing it afterwards says (C12: faults surface; stated before the C11 clause of the same content: a clause proved earlier is assumed by the later ones, and C12's check does not report clauses labelled for C11)
 //@ ensures [C12:sourcefault] !old(copied) && ret(CP,0,1) != nil ==> copyErr == ret(CP,0,1) && result == nil
+//@ ensures [C11:copyfail] !old(copied) && ret(CP,0,1) != nil ==> copyErr == ret(CP,0,1) && result == nil && calls(GB) == 0
 //@ ensures [C11:closefail] !old(copied) && ret(CP,0,1) == nil && calls(CL) == 1 && ret(CL,0,0) != nil ==> copyErr == ret(CL,0,0) && result == nil && calls(GB) == 0
 //@ ensures [C11:closesource] !old(copied) && ret(CP,0,1) == nil ==> (calls(CL) == 1 <==> implements(old(body), "io.ReadCloser")) && (calls(CL) == 1 ==> recv(CL,0) == old(body))
 //@ ensures [C11:same] !old(copied) && ret(CP,0,1) == nil && (calls(CL) == 1 ==> ret(CL,0,0) == nil) ==> body == boxas(r.buf, "*bytes.Buffer") && calls(GB) == 1 && arg(GB,0,0) == r && result == ret(GB,0,0) && time(CP,0) < time(GB,0)
